@@ -434,6 +434,12 @@ impl<T> Rc<T> {
     pub fn try_unwrap(this: Self) -> Result<T, Self> {
         if Rc::strong_count(&this) == 1 {
             unsafe {
+                // `this` is not dropped, so remove it from the adoption
+                // bookkeeping of its peers, which would otherwise keep links
+                // to the allocation given up here, and release its own links.
+                crate::drop::unlink(&this);
+                ptr::drop_in_place((*this.ptr.as_ptr()).links.as_mut_ptr());
+
                 let val = ptr::read(&*this); // copy the contained object
 
                 // Indicate to Weaks that they can't be promoted by decrementing
@@ -897,6 +903,12 @@ impl<T: Clone> Rc<T> {
             unsafe {
                 let data: &mut MaybeUninit<T> = mem::transmute(Rc::get_mut_unchecked(&mut rc));
                 data.as_mut_ptr().copy_from_nonoverlapping(&**this, 1);
+
+                // The old allocation is left to its `Weak`s without being
+                // dropped, so remove it from the adoption bookkeeping of its
+                // peers and release its own links.
+                crate::drop::unlink(this);
+                ptr::drop_in_place((*this.ptr.as_ptr()).links.as_mut_ptr());
 
                 this.inner().dec_strong();
                 // Remove implicit strong-weak ref (no need to craft a fake
